@@ -93,6 +93,13 @@ func main() {
 				// before it must still sign afterwards
 				ins = append(ins, wl.Op{Kind: "next", N: r.Range(1, 4), Internal: r.Bool()}, wl.Op{Kind: "export", PC: "cur", K: 0}, wl.Op{Kind: "delete", PC: "cur", K: 0}, wl.Op{Kind: "import", PC: "exp", X: 0}, wl.Op{Kind: "unlock", PC: "cur"})
 			}
+			if r.Chance(1, 4) {
+				// a keystore comes back under ANOTHER new passphrase while a second keystore stays (must be refused): if it
+				// were accepted, Unlock could only open part of the wallet - and a wallet that reports locked must not sign
+				ins = append(ins, wl.Op{Kind: "create", PC: "cur", SeedKind: "fresh", Remark: "stays"}, wl.Op{Kind: "next", N: 2, K: 1}, wl.Op{Kind: "export", PC: "cur", K: 0}, wl.Op{Kind: "delete", PC: "cur", K: 0},
+					wl.Op{Kind: "import", PC: "exp", NPC: "other", X: -1}, wl.Op{Kind: "lock"}, wl.Op{Kind: "unlock", PC: "cur"}, wl.Op{Kind: "sign", N: 0}, wl.Op{Kind: "sign", N: 3},
+					wl.Op{Kind: "lock"}, wl.Op{Kind: "unlock", PC: "cur"}, wl.Op{Kind: "sign", N: 1})
+			}
 			pos := 1 + r.Intn(len(ops)/2+1)
 			out := append([]wl.Op{}, ops[:pos]...)
 			out = append(out, ins...)
